@@ -88,18 +88,49 @@ fn pick_rows(r: &mut Rng) -> usize {
     match r.below(8) { 0 => 0, 1 => 1, 2 => *r.pick(&[7usize, 8, 9, 31, 32, 33, 63, 64, 65, 127, 128, 129]), 3 => 200 + r.below(300), _ => 1 + r.below(120) }
 }
 
+fn int_range(dt: &DataType) -> Option<(i128, i128)> {
+    Some(match dt {
+        DataType::Int8 => (i8::MIN as i128, i8::MAX as i128), DataType::Int16 => (i16::MIN as i128, i16::MAX as i128),
+        DataType::Int32 | DataType::Date32 | DataType::Time32(_) => (i32::MIN as i128, i32::MAX as i128),
+        DataType::Int64 | DataType::Timestamp(_, _) | DataType::Time64(_) => (i64::MIN as i128, i64::MAX as i128),
+        DataType::UInt8 => (0, u8::MAX as i128), DataType::UInt16 => (0, u16::MAX as i128),
+        DataType::UInt32 => (0, u32::MAX as i128), DataType::UInt64 => (0, u64::MAX as i128),
+        _ => return None,
+    })
+}
+
+/// values of one top-level column; integer-like columns are sometimes constant / arithmetic progressions /
+/// slowly varying (delta encodings: zero-width mini blocks, wrap-around at the type's limits), strings sorted-ish
+fn gen_column_vals(f: &Field, nrows: usize, r: &mut Rng, null_pct: u32) -> Vec<Val> {
+    if let Some((lo, hi)) = int_range(f.data_type()) {
+        if r.chance(2, 5) {
+            let span = (hi - lo + 1) as u128;
+            let wrap = |x: i128| lo + ((x - lo).rem_euclid(span as i128));
+            let mut cur = match r.below(4) { 0 => lo, 1 => hi, 2 => 0i128.clamp(lo, hi), _ => lo + ((r.next() as u128) % span) as i128 };
+            let step: i128 = match r.below(6) { 0 => 0, 1 => 1, 2 => -1, 3 => r.range(-1000, 1000) as i128, 4 => (span / 2) as i128, _ => (span as i128 / 3) + 1 };
+            let noise = r.chance(1, 3);
+            return (0..nrows).map(|_| {
+                cur = wrap(cur + step + if noise { r.range(0, 3) as i128 } else { 0 });
+                if f.is_nullable() && r.chance(null_pct.min(40), 100) { Val::Null } else { Val::Int(BigInt::from(cur)) }
+            }).collect();
+        }
+    }
+    (0..nrows).map(|_| gen_val(f.data_type(), f.is_nullable(), r, null_pct)).collect()
+}
+
 fn gen_roundtrip(r: &mut Rng, emit: &mut dyn FnMut(Case)) {
     let ncols = 1 + r.below(4);
     let depth = r.below(4);
     let fields: Vec<Field> = (0..ncols).map(|i| Field::new(gen_name(r, i), gen_type(r, depth), r.chance(3, 4))).collect();
     let schema = Schema::new(fields);
     let mut nrows = pick_rows(r);
+    if depth == 0 && r.chance(1, 10) { nrows = 500 + r.below(900); }
     // keep files small: deep list nesting multiplies leaf counts
     if depth >= 2 { nrows = nrows.min(150); }
     let null_pct = *r.pick(&[0u32, 5, 20, 50, 95]);
     let mut content: Vec<BigInt> = vec![nrows.into()];
     for f in schema.fields() {
-        for _ in 0..nrows { let v = gen_val(f.data_type(), f.is_nullable(), r, null_pct); enc_val(f.data_type(), &v, &mut content); }
+        for v in gen_column_vals(f, nrows, r, null_pct) { enc_val(f.data_type(), &v, &mut content); }
     }
     let cfg = gen_config(r);
     let part = gen_partition(r, nrows);
@@ -113,7 +144,7 @@ fn gen_path_value(path: &[i64], kinds: &[i64], fsl: &[i64], ki: usize, r: &mut R
         Some(0) => gen_path_value(&path[1..], kinds, fsl, ki, r, null_pct, out),
         Some(1) => { if r.chance(null_pct, 100) { out.push(0); } else { out.push(1); gen_path_value(&path[1..], kinds, fsl, ki, r, null_pct, out); } }
         _ => {
-            let n = if kinds[ki] == 2 { fsl[ki] as usize } else { match r.below(6) { 0 | 1 => 0, 2 => 1, 3 => 2, _ => r.below(6) } };
+            let n = if kinds[ki] == 2 { fsl[ki] as usize } else { match r.below(7) { 0 | 1 => 0, 2 => 1, 3 => 2, 4 => if ki == 0 && r.chance(1, 12) { 64 + r.below(140) } else { r.below(6) }, _ => r.below(6) } };
             out.push(n as i64);
             for _ in 0..n { gen_path_value(&path[1..], kinds, fsl, ki + 1, r, null_pct, out); }
         }
@@ -128,11 +159,11 @@ fn gen_levels(r: &mut Rng, emit: &mut dyn FnMut(Case)) {
     for _ in 0..len { let n = r.below(3) as i64; if n == 2 { if nrep == 3 { continue; } nrep += 1; } path.push(n); }
     let kinds: Vec<i64> = (0..nrep).map(|_| *r.pick(&[0i64, 0, 1, 2, 3])).collect();
     let fsl: Vec<i64> = (0..nrep).map(|_| *r.pick(&[1i64, 2, 3])).collect();
-    let nrows = match r.below(6) { 0 => 0, 1 => 1, 2 => 60 + r.below(100), _ => 1 + r.below(40) };
+    let nrows = match r.below(8) { 0 => 0, 1 => 1, 2 | 3 => 60 + r.below(100), 4 => 150 + r.below(250), _ => 1 + r.below(40) };
     let null_pct = *r.pick(&[0u32, 10, 30, 60, 100]);
     let mut toks = Vec::new();
     for _ in 0..nrows { gen_path_value(&path, &kinds, &fsl, 0, r, null_pct, &mut toks); }
-    if toks.len() > 4000 { return; }
+    if toks.len() > 12000 { return; }
     let mut cfg = gen_config(r);
     cfg[C_CDC] = if r.chance(1, 6) { cfg[C_CDC] } else { 0 };
     let mut lay = vec![(r.next() >> 40) as i64, nrep as i64];
